@@ -98,6 +98,17 @@ func fill(cfg vlib.Cfg, sp *caseSpec) {
 		for i := 0; i < 2+sp.Siblings; i++ {
 			sp.Delays = append(sp.Delays, vlib.Pick(r, 0, 0, 1, 3, 10))
 		}
+		// multi-step histories (every second case of the kind)
+		switch sp.Kind {
+		case "start", "start-mgmt":
+			if r.Bool() {
+				for i, n := 0, r.Range(1, 3); i < n; i++ {
+					sp.StartItems = append(sp.StartItems, vlib.Pick(r, "worker", "serviceworker", "mt-high", "mt-med"))
+				}
+			}
+		case "stop", "stop-mgmt":
+			sp.Linger = r.Bool()
+		}
 	case "api":
 		sp.Method = vlib.Pick(r, "GET", "POST")
 		sp.DevMode = r.Chance(1, 3)
@@ -177,7 +188,7 @@ func genCases(cfg vlib.Cfg) []caseSpec {
 }
 
 func caseSig(sp caseSpec) string {
-	return fmt.Sprintf("%v|%s|%s|%d|%s/%s|b=%s|a=%s|sib=%d %v|%s %v %v", sp.AtStop, sp.Kind, sp.Value, sp.Repeat, sp.SecondKind, sp.SecondValue,
+	return fmt.Sprintf("%v%v%v|%s|%s|%d|%s/%s|b=%s|a=%s|sib=%d %v|%s %v %v", sp.AtStop, sp.Linger, sp.StartItems, sp.Kind, sp.Value, sp.Repeat, sp.SecondKind, sp.SecondValue,
 		strings.Join(sp.Before, ","), strings.Join(sp.After, ","), sp.Siblings, sp.Delays, sp.Method, sp.DevMode, sp.Late)
 }
 
@@ -299,6 +310,12 @@ func orchestrate() {
 		if sp.AtStop {
 			rep.Count("cases_panic_while_stopping", 1)
 		}
+		if len(sp.StartItems) > 0 {
+			rep.Count("cases_start_panic_with_items_then_retry_and_stop", 1)
+		}
+		if sp.Linger {
+			rep.Count("cases_stop_panic_with_worker_outliving_stop_timeout", 1)
+		}
 		for _, h := range append(append([]string{}, sp.Before...), sp.After...) {
 			rep.Seen("healthy_kinds_alongside", h)
 		}
@@ -417,6 +434,17 @@ func markExecuted(m map[string]map[string]bool, sp caseSpec) {
 		m[sp.Kind] = map[string]bool{}
 	}
 	m[sp.Kind][sp.Value] = true
+	for _, cls := range []struct {
+		on  bool
+		sfx string
+	}{{len(sp.StartItems) > 0, "+items"}, {sp.Linger, "+linger"}} {
+		if cls.on {
+			if m[sp.Kind+cls.sfx] == nil {
+				m[sp.Kind+cls.sfx] = map[string]bool{}
+			}
+			m[sp.Kind+cls.sfx][sp.Value] = true
+		}
+	}
 	if sp.SecondKind != "" {
 		if m["two-at-once"] == nil {
 			m["two-at-once"] = map[string]bool{}
